@@ -22,8 +22,11 @@ TraceInit == InitWith(<<>>) /\ l = 1
 
 Ev(e) == l <= Len(Trace) /\ Trace[l].ev = e /\ l' = l + 1
 
+\* cnew: NewCompressingReader, or Reset of a reader that served an earlier stream (possibly abandoned with
+\* bytes parked in the overflow buffer): CompressingReader!Reset; rst / rov are the state observed after it
 TrNew ==
     /\ Ev("cnew")
+    /\ Trace[l].rst = "initial" /\ Trace[l].rov = 0
     /\ st' = "initial" /\ ovLen' = 0 /\ ovPos' = 0 /\ groups' = Trace[l].groups
     /\ produced' = 0 /\ delivered' = 0 /\ last' = [n |-> 0, err |-> "none"]
 
